@@ -21,7 +21,8 @@ def boolByte (b : Bool) : UInt8 := if b then 1 else 0
     `counter[1]`.  The `static_cast<const Dot11QoSData&>` is only valid when the object is one. -/
 def ccmpAad (h : Hdr) : Out (Bytes × UInt8) := do
   let both := h.fromDS && h.toDS
-  let isQos := h.subtype == 8
+  -- has_qos_control = (subtype & QOS_DATA_DATA) != 0
+  let isQos := h.subtype &&& 8 != 0
   let len : UInt8 := 22 + 6 * boolByte both + (if isQos then 2 else 0)
   let a2 : UInt8 := h.protocol ||| (h.type <<< 2) ||| ((h.subtype <<< 4) &&& 0x80)
   let a3 : UInt8 := (0x40 : UInt8) ||| boolByte h.toDS ||| (boolByte h.fromDS <<< 1) ||| (h.moreFrag <<< 2) ||| (h.order <<< 7)
